@@ -47,14 +47,14 @@ def run(tier, seed, res):
     res.coverage["exhaustive_subspace"] = ("2 creators of one key on 2 threads, n_A,n_B in 0..%d, ADDTO at every position among the thread's uses, uses of the own or "
                                            "of the other creator, trailing lookup when n_A == n_B; every schedule with <= %d preemptions" % (nmax, pb))
     collect(res, wr)
-    per = 1500 if quick else 190000
+    per = 1200 if quick else 190000
     jobs = [dict(cmd=[b, "rc"], env={"RC_PARAMS": "seed=%d max_success=%d max_size=100" % (seed * 131 + i, per)}, tag="rc") for i in range(n)]
     wr = core.run_workers(PROP, jobs)
     res.absorb(wr, "rc")
     collect(res, wr)
-    rounds = 20000 if quick else 3000000
+    rounds = 10000 if quick else 3000000
     jobs = [dict(cmd=[b, "stress", str(t), str(rounds), str(seed * 17 + t)], tag="stress") for t in (2, 4, 8, 16)]
-    wr = core.run_workers(PROP, jobs, max_parallel=2)
+    wr = core.run_workers(PROP, jobs, max_parallel=4)
     res.absorb(wr, "stress")
     collect(res, wr)
     for f in sorted(glob.glob(os.path.join(core.VERIF, "corpus", PROP, "regress", "*.txt"))):
